@@ -92,10 +92,9 @@ impl<'c, 's> Run<'c, 's> {
         let mut a = [0u8; 3];
         let mut uuid = [0u8; 16];
         let mut entries: Vec<[u8; 4]> = Vec::new();
-        let allow = self.prof.allow_panic_inputs;
         match kind {
             0 => {
-                let ow = [4, 3, if allow { 1 } else { 0 }, 2];
+                let ow = [4, 3, 1, 2];
                 a[0] = self.ch.weighted(&ow) as u8;
                 a[1] = match self.ch.choose(4) {
                     0 => 0x08 + ni as u8,
@@ -115,7 +114,7 @@ impl<'c, 's> Run<'c, 's> {
                 a[0] = match walk {
                     Some((_, sel)) => sel,
                     None => {
-                        if allow && self.ch.chance(60, 1000) {
+                        if self.ch.chance(60, 1000) {
                             [n as u8, n as u8 + 1, 0xFF, 0xFE][self.ch.choose(4) as usize]
                         } else {
                             self.ch.choose(n) as u8
@@ -311,9 +310,22 @@ impl<'c, 's> Run<'c, 's> {
     // ------------------------------------------------------------ A5 / A6 / A7 / A11
 
     fn op_uuid(&mut self, ni: usize) {
-        let v = self.rand_fill(16);
         let mut u = [0u8; 16];
-        u.copy_from_slice(&v);
+        match self.ch.choose(6) {
+            // the nil UUID, all ones, and re-installing the current value are UUIDs too
+            1 => self.st.probe("uuid-update-to-nil"),
+            2 => u = [0xFF; 16],
+            3 => u = self.nodes[ni].m_uuid,
+            4 => {
+                u = self.nodes[ni].m_uuid;
+                let k = self.ch.choose(16) as usize;
+                u[k] ^= 1 << self.ch.choose(8);
+            }
+            _ => {
+                let v = self.rand_fill(16);
+                u.copy_from_slice(&v);
+            }
+        }
         self.nodes[ni].ctx.set_uuid(&u);
         self.nodes[ni].m_uuid = u;
         self.ev("app.set_uuid", &[ni as u64], &u);
@@ -872,8 +884,7 @@ impl<'c, 's> Run<'c, 's> {
             let ks = [3usize, 3 + self.ch.choose((len - 2) as u32) as usize, len];
             for k in ks {
                 let k = k.min(len);
-                let r = crate::real::get_length(&self.nodes[ni].ctx, &bytes[..k]);
-                self.st.lib_calls += 1;
+                let r = self.get_length_staged(ni, &bytes[..k]);
                 self.eval(Prop::C04, "C04/probe-on-prefix");
                 if r != Len::Ok(len) {
                     self.viol(
